@@ -21,6 +21,7 @@ ASSUMPTIONS = [
     "only the documented escapes (\\xHH, \\uHHHH, \\n, \\r, \\t, \\\\, \\\", \\') are in the domain",
 ]
 SYNTAX = (0x22, 0x5C, ord("x"), ord("u"), 0x0A, ord(";"), ord("{"), ord("}"), ord("#"), 0x27, ord("n"), ord("0"))
+HIST_ALPHA = (0x5C, 0x22, 0x27, 0x6E, 0x78, 0x34, 0x31, 0x0A, 0x3B, 0xE9)  # \\ " ' n x 4 1 LF ; e-acute
 BOUNDS = {"quick": {"syntax_len": 3, "dict_every": 8}, "thorough": {"syntax_len": 4, "dict_every": 1}}
 ATOMS = (("a", b"a"), ("\\x41", b"A"), ("\\xff", b"\xff"), ("A", b"A"), ("\\n", b"\n"), ("\\r", b"\r"), ("\\t", b"\t"), ("\\\\", b"\\"), ('\\"', b'"'), ("\\'", b"'"), ("'", b"'"), ("\\u0042", b"B"))
 
@@ -38,6 +39,8 @@ def plan(tier, seed):
         ch.append({"key": f"escapes/{i}", "kind": "escapes", "first": i, "cost": 200})
     ch.append({"key": "escapes/hex", "kind": "escapes_hex", "cost": 300})
     ch.append({"key": "uncached", "kind": "uncached", "cost": 2500})
+    for part in range(4):
+        ch.append({"key": f"history/text-and-bytes/{part}", "kind": "history", "part": part, "cost": 1500})
     return ch
 
 
@@ -272,6 +275,43 @@ def chunk_escapes_hex(chunk, acc):
     acc.sample({"literal": '"\\u00e9"', "expect": "e9"})
 
 
+def chunk_history(chunk, acc):
+    """Conversions do not depend on earlier conversions: the same content converted as text (str) and as bytes, in
+    both orders. Text without backslashes is written as it is with double quotes escaped (raw control characters
+    stay raw); bytes must still read back identically after the text conversion of the same content."""
+    from vmc import profile_env
+
+    cp = profile_env.install(True)
+    contents = [bytes(w) for w in sequences(HIST_ALPHA, 3, 1)]
+    for i, b in enumerate(contents):
+        if i % 4 != chunk["part"]:
+            continue
+        acc.states += 1
+        text = b.decode("latin-1")
+        if i % 2 == 0:
+            # text first, then bytes
+            try:
+                cp.value_to_string(text)
+            except Exception as e:  # noqa
+                acc.fail("C12/convert/exception", {"kind": "text", "data": b.hex()}, "literal", f"{type(e).__name__}: {e}")
+            check_bytes(acc, cp, b, False, "after-text")
+        else:
+            # bytes first, then text
+            check_bytes(acc, cp, b, False, "before-text")
+            if 0x5C in b:
+                continue
+            acc.transitions += 1
+            want = '"' + text.replace('"', '\\"') + '"'
+            try:
+                got = cp.value_to_string(text)
+            except Exception as e:  # noqa
+                got = f"{type(e).__name__}: {e}"
+            acc.case(("text-after-bytes", b), nontrivial=True, outcome=len(got))
+            if got != want:
+                acc.fail("C12/convert/text-depends-on-history", {"kind": "text-after-bytes", "data": b.hex()}, want, got)
+    acc.sample({"contents": "all strings of 1..3 characters over " + repr(bytes(HIST_ALPHA)), "orders": ["text, bytes", "bytes, text"]})
+
+
 def chunk_uncached(chunk, acc):
     """Cross-check with the real (un-memoised) Reconstructor construction path."""
     from vmc import profile_env
@@ -298,6 +338,14 @@ def replay(case):
     a = Acc("replay", "quick", 0)
     if case["kind"] == "bytes":
         check_bytes(a, cp, bytes.fromhex(case["data"]), True, "replay")
+    elif case["kind"] in ("text", "text-after-bytes"):
+        b = bytes.fromhex(case["data"])
+        text = b.decode("latin-1")
+        check_bytes(a, cp, b, False, "replay")
+        got = cp.value_to_string(text)
+        want = '"' + text.replace('"', '\\"') + '"'
+        if 0x5C not in b and got != want:
+            return {"ok": False, "expected": want, "observed": got}
     elif case["kind"] == "escape":
         lit = case["literal"]
         from lark import Token
